@@ -1,16 +1,17 @@
 use chrono::Duration;
 use nom::branch::alt;
 use nom::bytes::complete::tag;
-use nom::character::complete::char;
-use nom::combinator::{map, opt};
+use nom::character::complete::{char, digit1};
+use nom::combinator::{map, map_res, opt, recognize};
+use nom::error::{Error, ErrorKind};
 use nom::multi::many1;
-use nom::number::complete::double;
+use nom::sequence::pair;
 use nom::IResult;
 
 // Constants representing time units in nanoseconds
-const SECOND: u64 = 1_000_000_000;
-const MILLISECOND: u64 = 1_000_000;
-const MICROSECOND: u64 = 1_000;
+const SECOND: u128 = 1_000_000_000;
+const MILLISECOND: u128 = 1_000_000;
+const MICROSECOND: u128 = 1_000;
 
 /// Parses a duration string into a [`Duration`]. Duration strings support the
 /// following grammar:
@@ -34,11 +35,14 @@ const MICROSECOND: u64 = 1_000;
 pub fn parse_duration(i: &str) -> IResult<&str, Duration> {
     let (i, neg) = opt(parse_negative)(i)?;
     if i == "0" {
-        return Ok((i, Duration::zero()));
+        return Ok(("", Duration::zero()));
     }
-    let (i, duration) = many1(parse_number_unit)(i)
-        .map(|(i, d)| (i, d.iter().fold(Duration::zero(), |acc, next| acc + *next)))?;
-    Ok((i, duration * if neg.is_some() { -1 } else { 1 }))
+    let (i, terms) = many1(parse_number_unit)(i)?;
+    let duration = terms
+        .iter()
+        .try_fold(Duration::zero(), |acc, next| acc.checked_add(next))
+        .ok_or(nom::Err::Failure(Error::new(i, ErrorKind::TooLarge)))?;
+    Ok((i, if neg.is_some() { -duration } else { duration }))
 }
 
 enum Unit {
@@ -64,10 +68,22 @@ impl Unit {
 }
 
 fn parse_number_unit(i: &str) -> IResult<&str, Duration> {
-    let (i, num) = double(i)?;
-    let (i, unit) = parse_unit(i)?;
-    let duration = to_duration(num, unit);
-    Ok((i, duration))
+    let (rest, num) = parse_number(i)?;
+    let (rest, unit) = parse_unit(rest)?;
+    let duration =
+        to_duration(num, unit).ok_or(nom::Err::Failure(Error::new(i, ErrorKind::TooLarge)))?;
+    Ok((rest, duration))
+}
+
+/// Number -> Digit+ ('.' Digit+)?
+///
+/// Deliberately not `nom::number::complete::double`, which also accepts signs,
+/// exponents, `inf` and `nan`.
+fn parse_number(i: &str) -> IResult<&str, f64> {
+    map_res(
+        recognize(pair(digit1, opt(pair(char('.'), digit1)))),
+        str::parse::<f64>,
+    )(i)
 }
 
 fn parse_negative(i: &str) -> IResult<&str, ()> {
@@ -86,8 +102,13 @@ fn parse_unit(i: &str) -> IResult<&str, Unit> {
     ))(i)
 }
 
-fn to_duration(num: f64, unit: Unit) -> Duration {
-    Duration::nanoseconds((num * unit.nanos() as f64).trunc() as i64)
+fn to_duration(num: f64, unit: Unit) -> Option<Duration> {
+    let nanos = (num * unit.nanos() as f64).trunc();
+    // `i64::MAX as f64` rounds up to 2^63, the first value out of range.
+    if nanos.is_nan() || nanos >= i64::MAX as f64 || nanos < i64::MIN as f64 {
+        return None;
+    }
+    Some(Duration::nanoseconds(nanos as i64))
 }
 
 /// Formats a [`Duration`] into a string. String returns a string representing the
@@ -101,22 +122,10 @@ pub fn format_duration(d: &Duration) -> String {
     let buf = &mut [0u8; 32];
     let mut w = buf.len();
 
-    let mut neg = false;
-    let mut u = d
-        .num_nanoseconds()
-        .map(|n| {
-            if n < 0 {
-                neg = true;
-            }
-            n as u64
-        })
-        .unwrap_or_else(|| {
-            let s = d.num_seconds();
-            if s < 0 {
-                neg = true;
-            }
-            s as u64 * SECOND
-        });
+    // Total nanoseconds; 128 bits hold every `Duration`, also those beyond 2^63 ns.
+    let nanos = i128::from(d.num_seconds()) * 1_000_000_000 + i128::from(d.subsec_nanos());
+    let neg = nanos < 0;
+    let mut u = nanos.unsigned_abs();
 
     if u < SECOND {
         // Special case: if duration is smaller than a second,
@@ -175,7 +184,7 @@ pub fn format_duration(d: &Duration) -> String {
     String::from_utf8_lossy(&buf[w..]).into_owned()
 }
 
-fn format_float(buf: &mut [u8], mut v: u64, prec: usize) -> (usize, u64) {
+fn format_float(buf: &mut [u8], mut v: u128, prec: usize) -> (usize, u128) {
     let mut w = buf.len();
     let mut print = false;
     for _ in 0..prec {
@@ -194,7 +203,7 @@ fn format_float(buf: &mut [u8], mut v: u64, prec: usize) -> (usize, u64) {
     (w, v)
 }
 
-fn format_int(buf: &mut [u8], mut v: u64) -> usize {
+fn format_int(buf: &mut [u8], mut v: u128) -> usize {
     let mut w = buf.len();
     if v == 0 {
         w -= 1;
